@@ -225,8 +225,12 @@ def run_on(fb, chk, tag=""):
         dom = gm.cfg.dominators()
         ok = len(se) == 1 and len(jn) == 1 and se[0] in dom.get(jn[0], ()) and gm.cfg.in_loop(jn[0]) and not gm.cfg.in_loop(se[0])
         src = any("drain(" in show(gm.sym.arg_terms(jn[0])[0]) or "worker_threads" in show(gm.sym.arg_terms(jn[0])[0]) for _ in [0]) if jn else False
-        chk.check(ok and src, "H5", tag + "handler-drop", "signal every worker's exit event, then join every worker",
-                  "Drop for VhostUserHandler: exit events before joins=%s, joins all workers=%s" % (ok, src), g.loc())
+        # every drained worker is joined: no iteration of the loop can go round without the join (no timeout / skip)
+        from .c11 import _skippable_in_loop
+        skip = bool(jn) and _skippable_in_loop(gm.cfg, jn[0])
+        chk.check(ok and src and not skip, "H5", tag + "handler-drop", "signal every worker's exit event, then join every worker",
+                  "Drop for VhostUserHandler: exit events before joins=%s, joins all workers=%s, a worker can be left un-joined=%s "
+                  "(a detached worker keeps its clones of the rings, the backend and the received descriptors alive)" % (ok, src, skip), g.loc())
         sef = fb.one(name="send_exit_event", self_adt="VhostUserHandler")
         sem = must_of(fb, sef)
         inner = sites(sef, name="send_exit_event")
